@@ -14,7 +14,7 @@
    COVERING (the supremum over the continuum) is proved for the uv mesh only
    (C19_uv_mesh_covers); for all other grids it is NOT proved -- see
    design.d/C19.md -- and is monitored by the oracle. *)
-From Coq Require Import Reals QArith List Bool ZArith.
+From Coq Require Import Reals QArith List Bool ZArith Sorted.
 From Verif Require Import Scalar RInst Quat QuatAlg C17Unique C17UniqueSpec C17Diff
   C19Model C19Lists C19Unit C19Reduced C19Steps C19Cover.
 From Verif.Gen Require Import C20Stereo.
